@@ -112,6 +112,12 @@ func mutations(r *rand.Rand, toks []string, all bool) []c09Str {
 			sw[i], sw[i+1] = sw[i+1], sw[i]
 			out = append(out, c09Str{join(sw), "swap"})
 		}
+		if (all || r.Intn(3) == 0) && len(toks[i]) > 0 && (toks[i][0] == '#' || toks[i][0] == ':' || toks[i][0] == '_' || (toks[i][0]|0x20 >= 'a' && toks[i][0]|0x20 <= 'z')) {
+			// one token in parentheses of its own: fine around an operand, not around the name of a function, a clause
+			// keyword or the target of an update action
+			w := append(append(append(append([]string{}, toks[:i]...), "(", toks[i], ")"), toks[i+1:]...))
+			out = append(out, c09Str{join(w), "paren-wrap"})
+		}
 		if all || r.Intn(4) == 0 {
 			v := mon.Pick(r, c09Vocab)
 			ins := append(append(append([]string{}, toks[:i]...), v), toks[i:]...)
